@@ -5,20 +5,37 @@ import Proofs.KeysRoundTrip
 namespace KeysP
 open Keys
 
-theorem fromSecretExponent_err (E : Ext) (c : Curve) (hpub : PubSpec E c) (d : Int) (e : PyErr)
+/-- since F14 no hypothesis on `generator * d` is needed: an INFINITY product is `MalformedPointError` too -/
+theorem fromSecretExponent_err' (E : Ext) (c : Curve) (d : Int) (e : PyErr)
     (h : SK.fromSecretExponent E c d = .error e) : e = .malformedPoint := by
   unfold SK.fromSecretExponent at h
   split at h
   · injection h with h; exact h.symm
-  · rename_i hr
-    simp only [not_not] at hr
-    obtain ⟨x, y, hp, _, _⟩ := hpub d.toNat (by omega) (by omega)
-    rw [hp] at h; simp only at h
-    split at h
-    · rename_i e' he'
-      injection h with h; rw [← h]
-      exact fromPublicPoint_err E c _ _ false e' he'
-    · cases h
+  · split at h
+    · injection h with h; exact h.symm
+    · split at h
+      · rename_i e' he'
+        injection h with h; rw [← h]
+        exact fromPublicPoint_err E c _ _ false e' he'
+      · cases h
+
+theorem fromSecretExponent_err (E : Ext) (c : Curve) (_hpub : PubSpec E c) (d : Int) (e : PyErr)
+    (h : SK.fromSecretExponent E c d = .error e) : e = .malformedPoint := fromSecretExponent_err' E c d e h
+
+theorem sk_fromString_err' (E : Ext) (c : Curve) (s : Bytes) (e : PyErr)
+    (h : SK.fromString E c s = .error e) : e = .malformedPoint := by
+  unfold SK.fromString at h
+  split at h
+  · injection h with h; exact h.symm
+  · rename_i hlen
+    simp only [not_not] at hlen
+    have hne : s ≠ [] := by
+      intro hh; subst hh
+      have := orderlen_pos c.n
+      unfold Curve.baselen at hlen; simp at hlen; omega
+    rw [stringToNumber_ok s hne] at h
+    simp only at h
+    exact fromSecretExponent_err' E c _ e h
 
 theorem sk_fromString_err (E : Ext) (c : Curve) (hpub : PubSpec E c) (s : Bytes) (e : PyErr)
     (h : SK.fromString E c s = .error e) : e = .malformedPoint := by
